@@ -80,6 +80,18 @@ class Unit:
                         out.append(q)
         return sorted(set(out))
 
+    def side_text(self):
+        """the sidecar plus every contracts/ and models/ header it includes, transitively"""
+        text = self.part1 + self.part2; seen = set(); todo = re.findall(r'#\s*include\s+"((?:contracts|models)/[^"]+)"', text)
+        while todo:
+            inc = todo.pop()
+            if inc in seen: continue
+            seen.add(inc)
+            try: t = open(os.path.join(VERIF, inc)).read()
+            except OSError: continue
+            text += t; todo += re.findall(r'#\s*include\s+"((?:contracts|models)/[^"]+)"', t)
+        return text
+
     # ------------------------------------------------------------------ build unit.c
     def build(self, index_cache):
         os.makedirs(self.dir, exist_ok=True)
@@ -115,10 +127,7 @@ class Unit:
         # repo callees that are neither listed nor given a contract/stub in the sidecar are lowered on
         # demand (CBMC then sees their real body), so an edit that starts using another small helper
         # of the library stays decidable
-        side = self.part1 + self.part2
-        for inc in re.findall(r'#\s*include\s+"((?:contracts|models)/[^"]+)"', side):      # contracts given in shared headers count too
-            try: side += open(os.path.join(VERIF, inc)).read()
-            except OSError: pass
+        side = self.side_text()      # contracts given in shared headers count too
         cmap = None
         progress = True
         while progress:
@@ -195,6 +204,21 @@ class Unit:
         out.append('#line %d "%s"\n' % (self.p2_line, self.path))
         out.append(self.part2)
         out.append('#line 1 "generated-code"\n')
+        # Qt/STL spell some accessors several ways (cbegin/constBegin/begin() const, count/length/size, ...): when the code uses a
+        # spelling the sidecar's models do not define but an equivalent spelling IS defined, the equivalent model stands for it
+        self.aliases = []
+        for e in sorted(L.extern_calls):
+            if re.search(r'\b%s\s*\(' % re.escape(e), side): continue
+            done = False
+            for group in EQUIVALENT_METHODS:
+                for suf in group:
+                    if not e.endswith('_' + suf): continue
+                    for alt in group:
+                        cand = e[:-len(suf)] + alt
+                        if cand != e and re.search(r'\b%s\s*\(' % re.escape(cand), side):
+                            out.append('#define %s %s   /* equivalent Qt/STL spelling */\n' % (e, cand)); self.aliases.append((e, cand)); done = True; break
+                    if done: break
+                if done: break
         out.append('#ifndef VERIF_NEW\n/* new T: a fresh heap object; operator new never returns null (allocation failure is outside the model) */\n'
                    '#define VERIF_NEW(T) ({ T *_p = (T *)malloc(sizeof(T)); __CPROVER_assume(_p != 0); _p; })\n#endif\n')
         for nm in sorted(getattr(L, 'array_reads', ())):
@@ -248,10 +272,7 @@ class Unit:
     def unannotated_loops(self, p):
         """loops (of functions whose BODY is part of proof p) that have no loop contract in the sidecar: they are
         abstracted by havoc (invariant 1==1); a failure downstream of one may be an artefact of that abstraction"""
-        side = self.part1 + self.part2
-        for inc in re.findall(r'#\s*include\s+"((?:contracts|models)/[^"]+)"', side):      # contracts given in shared headers count too
-            try: side += open(os.path.join(VERIF, inc)).read()
-            except OSError: pass
+        side = self.side_text()      # contracts given in shared headers count too
         out = []
         for c in [p.target] + list(p.reach_bodies):
             fi = self.fninfos.get(c)
@@ -401,6 +422,12 @@ def parse_text_results(txt):
                         'sourceLocation': {'file': cur_file, 'line': m.group(2), 'function': cur_fn}})
     return res if seen else None
 
+EQUIVALENT_METHODS = [
+    ['begin_const', 'cbegin_const', 'constBegin_const'], ['end_const', 'cend_const', 'constEnd_const'],
+    ['rbegin_const', 'crbegin_const'], ['rend_const', 'crend_const'],
+    ['size', 'count', 'length'], ['first', 'constFirst', 'front'], ['last', 'constLast', 'back'],
+    ['append', 'push_back'], ['prepend', 'push_front'], ['removeFirst', 'pop_front'], ['removeLast', 'pop_back'],
+]
 BUILTIN_OK = {'malloc', 'free', 'memcpy', 'memset', 'abort', 'exit'}
 
 def split_params(s):
